@@ -26,7 +26,7 @@ RULE = ("21 oriented models x shape parameters from each model's random generato
 ASSUMPTIONS = ["raw library functions are the model's own 1-D and 2-D functions",
                "each model is held to its own integration accuracy (observed convergence of both sides)"]
 REQUIRED_MONITORS = ["1d_is_spherical_average", "api_1d_is_average_of_2d", "integration_size_independent_where_resolved"]
-REQUIRED_BUCKETS = {"quick": ["sym:ac", "sym:abc", "qsize<1", "qsize>5", "deciding"]}
+REQUIRED_BUCKETS = {"quick": ["api:size-mesh>100", "sym:ac", "sym:abc", "qsize<1", "qsize>5", "deciding"]}
 REQUIRED_BUCKETS["thorough"] = REQUIRED_BUCKETS["quick"]
 
 _hi = {}
@@ -219,10 +219,29 @@ def run_case(case, rec):
         x, w = gl(256)
         al = np.arccos(x)                # angle between q and the c axis
         qx, qy = q*np.cos(al), q*np.sin(al)        # theta = 90, phi = 0 puts the c axis along x
-        p2 = dict(pars, theta=90.0, phi=0.0, scale=1.0, background=0.0)
+        pdx = {}
+        if k % 4 == 0 and sas.eval_cost(i, "1d") < 3e-4:
+            # the same statement for a population: a size mesh of more than 100 points on both sides (the average
+            # over directions commutes with the average over sizes, the volume normalisation is common)
+            sizes = [p_ for p_ in sas.usable_pd(i, pars, "1d") if p_.type == "volume" and not p_.name.startswith("n_")]
+            if len(sizes) >= 2:
+                for p_, n_ in zip(sizes[:2], (11, 10)):
+                    lo_, hi_ = p_.limits
+                    room = min(abs(pars[p_.name] - lo_), abs(hi_ - pars[p_.name]))/abs(pars[p_.name])
+                    w_ = min(0.04, 0.9*room/2.0)
+                    if w_ > 0:
+                        pdx.update({p_.name + "_pd": w_, p_.name + "_pd_n": n_, p_.name + "_pd_nsigma": 2.0,
+                                    p_.name + "_pd_type": "gaussian"})
+                if len([kk for kk in pdx if kk.endswith("_pd_n")]) == 2:
+                    rec.bucket("api:size-mesh>100")
+                else:
+                    pdx = {}
+        p2 = dict(pars, theta=90.0, phi=0.0, scale=1.0, background=0.0, **pdx)
         I2 = np.asarray(direct_model.call_kernel(model.make_kernel([qx, qy]), p2), float)
         avg = float(np.sum(w*I2)/2.0)
-        I1 = float(direct_model.call_kernel(model.make_kernel([np.array([q])]), dict(pars, scale=1.0, background=0.0))[0])
+        I1 = float(direct_model.call_kernel(model.make_kernel([np.array([q])]), dict(pars, scale=1.0, background=0.0, **pdx))[0])
+        if pdx:
+            rtol = max(rtol, 1e-4)       # 4 % wide size distributions: the converged quadratures stay converged
         one_hi = None
         tol = max(rtol, 1e-6)*abs(avg)
         rec.check("api_1d_is_average_of_2d", abs(I1 - avg) <= max(tol, 0) if np.isfinite(avg) else True,
